@@ -199,7 +199,11 @@ def run(run):
         # messages with n subsets
         cat = catalogue.catalogue(run.tier, seed())
         r = seed() % 5
-        templates = cat['struct'][:6] + cat['bitmap'][:5] + [[12001, 2001, 1015], [201185, 1001, 201000, 31031], [102002, 11003, 8042]]
+        templates = cat['struct'][:6] + cat['bitmap'][:5] + [[12001, 2001, 1015], [201185, 1001, 201000, 31031], [102002, 11003, 8042],
+                                                             # eight strings / numerics / code tables in a row: every kind of column (see catalogue)
+                                                             [1015, 1008, 1011, 25061, 1015, 1008, 1011, 25061],
+                                                             [12001, 11003, 7001, 10004, 13011, 12101, 1002, 5001],
+                                                             [2001, 1003, 2003, 20003, 2002, 8042, 31021, 8023]]
         jobs = []
         cli_pairs = []
         for n in range(1, maxn + 1):
